@@ -339,11 +339,30 @@ def build_axil_conv_proto(dwm, dws, K):
     top.sync += [If((hs(mbus.b) & (mbus.b.resp != RESP_OKAY)) | (hs(mbus.r) & (mbus.r.resp != RESP_OKAY)), se1.eq(1)),
                  If((hs(mbus.b) & (mbus.b.resp == RESP_OKAY)) | (hs(mbus.r) & (mbus.r.resp == RESP_OKAY)), so1.eq(1))]
     top.comb += w.eq(se1 & so1)
-    # excuse for the listed up-converter finding: write data is never offered before its address
-    exc = Signal(name_override="exc_w_not_before_aw")
-    top.comb += exc.eq(~mbus.w.valid | (n["w"] < n["aw"]) | mbus.aw.valid)
+    # excuse for the listed up-converter finding (lane taken from the LAST VALID AW, not from the AW the data belongs to): write data is offered
+    # together with / after its own address and no newer address is offered while it waits
+    exc = Signal(name_override="exc_w_with_its_own_aw")
+    top.comb += exc.eq((~mbus.w.valid | (mbus.aw.valid & (n["w"] == n["aw"])) | (~mbus.aw.valid & (n["w"] + 1 == n["aw"]))) &
+                       (~mbus.r.valid | ~mbus.ar.valid))      # (read side of the same finding: no newer AR while read data is being presented)
+    bad = dict(valid_held=bs, error_responses_propagated=be, no_response_without_request=once)
+    if dwm < dws:
+        # byte-lane steering towards ANY slave (also one that takes W before AW): the data beat a slave accepts carries the master's data and
+        # strobes in the lane of the write it belongs to - the AW offered right now (data taken first / together) or the AW accepted last
+        shs = log2_int(dws // 8)
+        lane_now = mbus.aw.addr[sh:shs]
+        lane_last = top.reg(shs - sh, "last_aw_lane")
+        top.sync += If(hs(mbus.aw), lane_last.eq(lane_now))
+        with_now = mbus.aw.valid & (n["w"] == n["aw"])
+        with_last = ~mbus.aw.valid & (n["w"] + 1 == n["aw"])
+        lane = Signal(shs - sh, name_override="ref_lane")
+        top.comb += lane.eq(Mux(with_now, lane_now, lane_last))
+        okl = Signal(name_override="lane_ok")
+        top.comb += Case(lane, {i: okl.eq((sbus.w.data[i * dwm:(i + 1) * dwm] == mbus.w.data) & (sbus.w.strb == (mbus.w.strb << (i * dwm // 8)))) for i in range(dws // dwm)})
+        steer = Signal(name_override="bad_write_lane")
+        top.comb += steer.eq(hs(sbus.w) & (with_now | with_last) & ~okl)
+        bad["write_data_steered_to_the_lane_of_its_address"] = steer
     return H("axilite_conv_%dto%d_proto" % (dwm, dws), top, me.free + se.free, assume=[me.asm, me.no_ovf, se.asm, se.no_ovf, single],
-             bad=dict(valid_held=bs, error_responses_propagated=be, no_response_without_request=once), witness=dict(error_and_ok_responses=w), K=K, funcs=FUNCS,
+             bad=bad, witness=dict(error_and_ok_responses=w), K=K, funcs=FUNCS,
              excuses=dict(valid_held=[exc]),
              cfg=dict(master_width=dwm, slave_width=dws, partner="free AXI-Lite slave with error responses"),
              show=[mbus.aw.valid, mbus.w.valid, mbus.b.valid, mbus.b.resp, mbus.ar.valid, mbus.r.valid, mbus.r.resp, sbus.aw.valid, sbus.w.valid, sbus.b.valid, sbus.b.resp, sbus.ar.valid, sbus.r.valid, sbus.r.resp],
@@ -365,7 +384,8 @@ def jobs(tier):
           Job("axilite_wb_free_master", build_axil_slave_proto, dict(kind="wb", K=K + 4), cost=8),
           Job("axilite2wishbone_proto", build_axil2wb_proto, dict(K=K), cost=5),
           Job("wishbone2axilite_proto", build_wb2axil_proto, dict(K=K), cost=5),
-          Job("axilite_conv_16to8_proto", build_axil_conv_proto, dict(dwm=16, dws=8, K=K + 2), cost=10)]
+          Job("axilite_conv_16to8_proto", build_axil_conv_proto, dict(dwm=16, dws=8, K=K + 2), cost=10),
+          Job("axilite_conv_8to32_proto", build_axil_conv_proto, dict(dwm=8, dws=32, K=K), cost=10)]
     if T:
         js += [Job("axilite_sram_d32", build_axilsram, dict(dw=32, depth=4, K=K), cost=6),
                Job("axilite2wishbone_d32_base40", build_axil2wb, dict(dw=32, depth=4, K=K, base=0x40), cost=8),
@@ -374,8 +394,7 @@ def jobs(tier):
                Job("axilite_conv_32to8", build_axil_conv, dict(dwm=32, dws=8, depth_s=16, K=24), cost=40, timeout_s=3400),
                Job("axilite_conv_64to8", build_axil_conv, dict(dwm=64, dws=8, depth_s=16, K=46), cost=200, timeout_s=5000),
                Job("axilite_conv_8to32", build_axil_conv, dict(dwm=8, dws=32, depth_s=4, K=K), cost=10),
-               Job("axilite_conv_32to8_proto", build_axil_conv_proto, dict(dwm=32, dws=8, K=K + 2), cost=20, timeout_s=3400),
-               Job("axilite_conv_8to32_proto", build_axil_conv_proto, dict(dwm=8, dws=32, K=K), cost=10)]
+               Job("axilite_conv_32to8_proto", build_axil_conv_proto, dict(dwm=32, dws=8, K=K + 2), cost=20, timeout_s=3400)]
     from vf.props import c09_full
     js += c09_full.jobs(tier)
     return js
